@@ -271,10 +271,13 @@ def run_parse_rules(res, ast):
 
                     def err_struct(block, kind):
                         """the single `return Err(Error { kind: ErrorKind::<kind>, position: P, .. })` of a block -> P node, else None"""
-                        rets = [r for r in walk_t(block, "Return")]
-                        if len(rets) != 1 or rets[0].get("expr") is None:
+                        rets = [r["expr"] for r in walk_t(block, "Return") if r.get("expr") is not None]
+                        st__ = block.get("stmts") or []
+                        if not rets and st__ and st__[-1]["t"] == "ExprStmt" and not st__[-1]["semi"]:
+                            rets = [st__[-1]["expr"]]       # the value of the block (guard clauses are read as if/else)
+                        if len(rets) != 1:
                             return None
-                        e_ = strip_paren(rets[0]["expr"])
+                        e_ = strip_paren(rets[0])
                         if not (e_["t"] == "Call" and path_name(e_["func"]) == "Err" and len(e_["args"]) == 1 and strip_paren(e_["args"][0])["t"] == "StructExpr"):
                             return None
                         fl = {x["member"]: x["expr"] for x in strip_paren(e_["args"][0])["fields"]}
